@@ -2,9 +2,11 @@
 import sys, os, random, re, ipaddress
 from urllib import parse as _uparse
 import gen_C15
+import gen_C11
 
 ID = 'C15'
-GEN = [('Gen/C15_Netutils.v', gen_C15.generate)]
+# the text-level model reuses C11's models of IPNetwork / is_valid_ipv4 / is_valid_ipv6 (Model/C11.v over Gen/C11_Netutils.v)
+GEN = [('Gen/C15_Netutils.v', gen_C15.generate), ('Gen/C11_Netutils.v', gen_C11.generate), ('Gen/C11_Code.v', gen_C11.generate_code)]
 EQUIV_FILES = ['Proofs/C15.v']
 EXTRACT = 'Extract/C15_x.v'
 
@@ -224,6 +226,53 @@ def case_eui(rng):
     c.update(rand_prefix(rng)); c.update(rand_mac(rng))
     return c
 
+HEXD = '0123456789abcdefABCDEF'
+def rand_eui_text(rng):
+    r = rng.random()
+    if r < 0.30: return mac_text(rng, rand_mac48(rng))
+    if r < 0.40:
+        v = rng.getrandbits(64); h = '%016x' % v
+        k = rng.randrange(4)
+        if k == 0: return ':'.join(h[i:i + 2] for i in range(0, 16, 2))
+        if k == 1: return '-'.join(h[i:i + 4] for i in range(0, 16, 4)).upper()
+        if k == 2: return '.'.join(h[i:i + 4].lstrip('0') or '0' for i in range(0, 16, 4))
+        return h
+    if r < 0.60:
+        # word grids: n words of len lo..hi with a separator (all RE_MAC/RE_EUI64 shapes and near misses)
+        sep = rng.choice([':', '-', '.', ':', '-', '', ';'])
+        n = rng.choice([1, 2, 3, 4, 5, 6, 7, 8, 9])
+        L = rng.choice([(1, 2), (1, 4), (5, 6), (1, 6), (2, 2), (4, 4), (6, 6), (1, 3)])
+        ws = [''.join(rng.choice(HEXD) for _ in range(rng.randint(*L))) for _ in range(n)]
+        t = sep.join(ws)
+        if rng.random() < 0.15: t += rng.choice(['\n', '\n\n', ' ', '\r\n', 'g'])
+        if rng.random() < 0.08: t = rng.choice(['\n', ' ', 'x']) + t
+        return t
+    if r < 0.72:
+        n = rng.choice([10, 11, 12, 13, 15, 16, 17])
+        return ''.join(rng.choice(HEXD if rng.random() < 0.7 else '0123456789') for _ in range(n))
+    if r < 0.90:
+        return rng.choice(['0', '1', ' 12 ', '1234567', '٣', '-1', '+5', '1_0', '281474976710655', '281474976710656', '18446744073709551615',
+                           '18446744073709551616', '99999999999999999999999', '12\x1f', '\t7\n', '0x10', '1e3', '00', '007', '٠٠:16:3e:33:44:55',
+                           str(rng.getrandbits(rng.choice([8, 40, 47, 48, 49, 63, 64, 65])))])
+    return rng.choice(BAD_MACS + ['1.2.3.4', '1-2-3-4-5-6', 'aa:bb:cc:dd:ee:ff\n', 'AA-BB-CC-DD-EE-FF', 'aabb.ccdd.eeff', 'aabbcc-ddeeff', 'aabbc:ddeef',
+                                  'aa:bb:cc:dd:ee:ff:00:11', 'ſa:bb:cc:dd:ee:ff', 'Aa:bB:cc:dd:ee:ff', 'a:b:c:d:e:f', 'a-b-c', 'a.b.c', 'a.b.c.d', ''])
+
+def rand_net_text(rng):
+    r = rng.random()
+    if r < 0.45: return rand_prefix(rng)['prefix'] if rng.random() < 0.9 else 'x'
+    a6 = v6_text(rng, rand_v6(rng)); a4 = str(ipaddress.IPv4Address(rng.getrandbits(32)))
+    if r < 0.60:
+        j = rng.randint(0, 128); m = rng.choice([(1 << 128) - (1 << j), (1 << j) - 1, rng.getrandbits(128), ((1 << 128) - (1 << j)) ^ (1 << rng.randrange(128))]) % (1 << 128)
+        return a6 + '/' + v6_text(rng, m)
+    if r < 0.72:
+        j = rng.randint(0, 32); m = rng.choice([(1 << 32) - (1 << j), (1 << j) - 1, rng.getrandbits(32)]) % (1 << 32)
+        return a4 + '/' + str(ipaddress.IPv4Address(m))
+    if r < 0.90:
+        a = rng.choice([a6, a4])
+        return a + '/' + rng.choice(['0', '1', '32', '33', '64', '128', '129', ' 64', '64 ', '+64', '-0', '-1', '6_4', '٦٤', '064', '', ' ', '0x40', '64/64', '1e1', '\t8\n', '8\x1f', str(rng.randint(0, 140))])
+    return rng.choice([a4 + '/' + a6, a6 + '/' + a4, a6 + '%eth0', a6 + '%eth0/64', '/' + a6, a6 + '//64', a4 + '\x00', a6.replace(':', '.', 1), '::/::', '::/ffff::', '0.0.0.0/0.0.0.0',
+                       '1.2.3.4/255.255.255.255', '1.2.3.4/0.0.0.255', '1.2.3.4/255.0.255.0', '01.2.3.4/8', '1.2.3/8', '::ffff:1.2.3.4/120', '1::2::3', ':::', '::', '1:2:3:4:5:6:7:8:9'])
+
 def case_inv(rng):
     """an interface-identifier based address built without the implementation"""
     r = rng.random()
@@ -252,6 +301,10 @@ def gen_cases(rng, tier):
             yield {'op': 'parse', 'addr': a, 'd': d}
     for _ in range(2500 * k): yield case_eui(rng)
     for _ in range(800 * k): yield case_inv(rng)
+    for _ in range(1500 * k): yield {'op': 'euiparse', 'm': rand_eui_text(rng)}
+    for _ in range(1500 * k): yield {'op': 'net', 'p': rand_net_text(rng)}
+    for _ in range(400 * k):
+        yield {'op': 'mactext', 'v': ((rng.getrandbits(64) << 64) | meui64(rand_mac48(rng))) if rng.random() < 0.7 else (rng.getrandbits(128) | (1 << 33))}
     for _ in range(2500 * k):
         h, fam = rand_host(rng)
         yield {'op': 'hostport', 'host': h, 'port': rng.choice(PORTS) if rng.random() < 0.6 else rng.randint(0, 65535), 'd': rand_default(rng)}
@@ -325,6 +378,23 @@ def impl(c):
         except Exception as e:
             return _cls(e)
         return '%d %d' % (e.version, int(e))
+    if op == 'euiparse':
+        try:
+            e = netaddr.EUI(c['m'])
+        except Exception as ex:
+            return _cls2(ex)
+        return '%d %d' % (e.version, int(e))
+    if op == 'net':
+        try:
+            n_ = netaddr.IPNetwork(c['p'])
+        except Exception as ex:
+            return _cls2(ex)
+        return '%d %d %d %d' % (n_.version, n_.value, n_.prefixlen, n_.first)
+    if op == 'mactext':
+        try:
+            return S(str(nu.get_mac_addr_by_ipv6(netaddr.IPAddress(c['v'], 6))))
+        except Exception as ex:
+            return _cls2(ex)
     if op == 'parse':
         return _hp(nu.parse_host_port, c['addr'], _dflt(c['d']))
     if op == 'hostport':
@@ -354,6 +424,11 @@ def impl(c):
         return '%s %s D:%s' % (out[0], out[1], 'same' if dflt == out[0] else dflt)
     raise KeyError(op)
 
+def _cls2(e):
+    import netaddr
+    if isinstance(e, netaddr.AddrFormatError): return 'EXN:AddrFormatError'
+    return _cls(e)
+
 def _libtag(e):
     import netaddr
     if isinstance(e, netaddr.AddrFormatError): return 'A'
@@ -368,6 +443,10 @@ def encode(c):
     if op == 'eui':
         p, m = _pyvals(c)
         is_str = isinstance(p, str)
+        # text prefix and text / int MAC: the model works end to end on the text (no oracle input)
+        if is_str and isinstance(m, str): return ['euitext', p, 'S', m]
+        if is_str and isinstance(m, int) and not isinstance(m, bool): return ['euitext', p, 'I', m]
+        # non-text arguments (None, float, list, bytes): the class netaddr raises is passed in
         def flag(strict):
             try: return bool(nu.is_valid_ipv4(p, strict))
             except Exception: return False
@@ -386,7 +465,10 @@ def encode(c):
     if op == 'parse':
         return ['parse', c['addr'] or '', c['d'][0], c['d'][1]]
     if op == 'hostport':
-        return ['hostport', bool(nu.is_valid_ipv6(c['host'])), c['host'], c['port'], c['d'][0], c['d'][1]]
+        return ['hosttext', c['host'], c['port'], c['d'][0], c['d'][1]]
+    if op == 'euiparse': return ['euiparse', c['m']]
+    if op == 'net': return ['net', c['p']]
+    if op == 'mactext': return ['mactext', c['v']]
     if op == 'url':
         try:
             l = _uparse.urlsplit(c['url'], c['scheme'], c['allow'])
